@@ -14,7 +14,8 @@ ENTRY = dict(
          "prefixes fixed up and key_share last, last-but-one or first in the extension list, against servers preferring only that "
          "group, and the same lengths in the SECOND ClientHello after a server-issued HelloRetryRequest; second ClientHellos after a HelloRetryRequest that differ "
          "from the first in exactly one field (every list-valued extension longer/shorter/changed/removed/added, suites, compression, "
-         "session id, random, version); crafted CBC records after a completed TLS 1.0/1.1/1.2 handshake on CBC suites (all-padding, "
+         "session id, random, version); every (form in hello #1, form in hello #2) pair of encrypted_client_hello (10 forms, servers without and with "
+         "an ECH configuration) and pre_shared_key (4 forms) across a HelloRetryRequest; crafted CBC records after a completed TLS 1.0/1.1/1.2 handshake on CBC suites (all-padding, "
          "no room for the MAC, MAC-only, inconsistent padding, 0/1/16384/16385/18500-byte regular records); 8 callback-bearing server "
          "configurations (UnwrapSession/WrapSession, GetConfigForClient, GetCertificate, VerifyConnection, client-auth variants) x "
          "{garbage PSK identities of 1..2000 bytes, genuine resumption by HelloGolang and every PSK parrot}; 15 kinds of post-handshake client traffic after a completed TLS 1.3 handshake by a Go-style and a Chrome_133 client "
